@@ -92,14 +92,24 @@ func innerCode(err error) string {
 
 // build creates the root JSchema with all rules and types registered. The error is the first failing AddRule/AddType.
 func (p project) build() (*jschema.JSchema, error) {
+	root, err := p.newRoot()
+	if err != nil {
+		return root, err
+	}
+	return root, p.addTypes(root)
+}
+
+// newRoot creates the root JSchema with its rules only (nothing is loaded yet).
+func (p project) newRoot() (*jschema.JSchema, error) {
 	rootName := p.name
 	if rootName == "" {
 		rootName = "root"
 	}
-	root, err := p.newSchema(rootName, p.root)
-	if err != nil {
-		return root, err
-	}
+	return p.newSchema(rootName, p.root)
+}
+
+// addTypes registers the project's types on root.
+func (p project) addTypes(root *jschema.JSchema) error {
 	mk := func(t typeDef) (schema.Schema, error) {
 		if t.kind == "R" {
 			return regex.New(t.name, append([]byte(nil), t.body...)), nil
@@ -130,13 +140,13 @@ func (p project) build() (*jschema.JSchema, error) {
 	for _, t := range p.types {
 		ts, err := mk(t)
 		if err != nil {
-			return root, err
+			return err
 		}
 		if err := root.AddType(t.name, ts); err != nil {
-			return root, fmt.Errorf("addtype:%s", innerCode(err))
+			return fmt.Errorf("addtype:%s", innerCode(err))
 		}
 	}
-	return root, nil
+	return nil
 }
 
 func errFull(err error) string {
